@@ -66,6 +66,7 @@ DEVIATIONS = {
     'SandboxValueCached': ('OwnSandbox', 'sds'),
     'SymbolValueCached': ('OwnSymbols', 'sym'),
     'LineNumsRangeCached': ('OwnSymbols', 'symLineNums'),
+    'PreprocessorArgsAccumulate': ('ThreeWaysAgree', 'sym'),
 }
 
 
